@@ -66,7 +66,7 @@ func c20R1(c *Ctx) {
 				for _, cl := range Calls(fn) {
 					cc := cl.Common()
 					cal := cc.StaticCallee()
-					if cal == nil || !strings.Contains(cal.Name(), "InReplyTo") && cal.Name() != "send" {
+					if cal == nil || !strings.Contains(cal.Name(), "InReplyTo") && fnName(cal) != "send" {
 						continue
 					}
 					for i, a := range cc.Args {
@@ -164,6 +164,7 @@ func c20R2(c *Ctx) {
 			}
 			n++
 			good := false
+			a = p.Inlined(a)
 			if a.Kind == "binop" && a.Op == token.MUL {
 				for _, pr := range [][2]*Org{{a.X, a.Y}, {a.Y, a.X}} {
 					if pr[0].Kind == "const" && pr[0].Const != nil && pr[0].Const.String() == "1.2" && isFieldOrg(pr[1], fHB) {
@@ -312,7 +313,7 @@ func c20R4(c *Ctx) {
 		for _, b := range fm.Blocks {
 			if r, ok := b.Instrs[len(b.Instrs)-1].(*ssa.Return); ok && len(r.Results) == 1 {
 				o := p.Origin(r.Results[0])
-				if !o.All(func(x *Org) bool { return x.Kind == "call" && x.Method != nil && x.Method.Name() == "FixMsgIn" }) {
+				if !o.All(func(x *Org) bool { return x.Kind == "call" && x.Method != nil && cn(x.Method) == "FixMsgIn" }) {
 					okAll = false
 				}
 			}
@@ -358,8 +359,8 @@ func c20R5(c *Ctx) {
 		n++
 		name := FuncName(st.Fn)
 		d := p.ReachCond(st.Store.Block())
-		notInit := d.Implies(func(a *Atom) bool { return a.Rel == "" && !a.Val && a.B.Kind == "field" && a.B.Field.Name() == "InitiateLogon" })
-		notOver := d.Implies(func(a *Atom) bool { return a.Rel == "" && !a.Val && a.B.Kind == "field" && a.B.Field.Name() == "HeartBtIntOverride" })
+		notInit := d.Implies(func(a *Atom) bool { return a.Rel == "" && !a.Val && a.B.Kind == "field" && cn(a.B.Field) == "InitiateLogon" })
+		notOver := d.Implies(func(a *Atom) bool { return a.Rel == "" && !a.Val && a.B.Kind == "field" && cn(a.B.Field) == "HeartBtIntOverride" })
 		vo := p.Origin(st.Store.Val)
 		valOK := vo.Kind == "binop" && vo.Op == token.MUL && vo.Mentions(func(x *Org) bool {
 			return (x.Kind == "outarg" || x.Kind == "call") && x.IsCallTo("(FieldMap).GetField", "(FieldMap).GetInt") && x.ArgConstInt(0, t108)
